@@ -107,6 +107,30 @@ def check(ctx):
                    f"(path {wit}); e.g. every even-length input leaves the loop without returning", key="falloff",
                    witness=wit)
 
+    ctx.clause = "1b-digit-string-unchanged"
+    MUTATORS = ("strip", "lstrip", "rstrip", "replace", "zfill", "lower", "upper", "removeprefix", "removesuffix", "translate", "split", "join", "format")
+    for fn in (enc, dec):
+        p0 = fn.args.args[0].arg
+        construct = f"bromelia.utils.{fn.name}"
+        where = f"{m.rel}:{fn.lineno}"
+        for st_ in [x for x in walk_no_nested(fn) if isinstance(x, ast.Assign) and any(isinstance(t, ast.Name) and t.id == p0 for t in x.targets)]:
+            v = st_.value
+            txt = ast.unparse(v)
+            ok_forms = (f"str({p0}) if isinstance({p0}, int) else {p0}", f"str({p0})", p0, f"{p0} if isinstance({p0}, str) else str({p0})")
+            bad = [n for n in ast.walk(v) if isinstance(n, ast.Call) and isinstance(n.func, ast.Attribute) and n.func.attr in MUTATORS] or \
+                [n for n in ast.walk(v) if isinstance(n, ast.Subscript)] or \
+                [n for n in ast.walk(v) if isinstance(n, ast.Call) and call_name(n) in ("float", "int", "abs", "round")]
+            if txt in ok_forms:
+                ctx.hold("R-ALIAS/digits-unchanged", construct, f"{m.rel}:{st_.lineno}", f"`{txt}` keeps every digit", key="normalise")
+            elif bad:
+                ctx.violate("R-ALIAS/digits-unchanged", construct, f"{m.rel}:{st_.lineno}",
+                            f"`{ast.unparse(st_)[:90]}` rewrites the digit string before it is encoded/decoded (strip/replace/slice/numeric "
+                            f"conversion): digits such as leading zeros are dropped, so decode(encode(s)) != s for those strings",
+                            key="normalise")
+            else:
+                ctx.undecided("R-ALIAS/digits-unchanged", construct, f"{m.rel}:{st_.lineno}", f"input normalisation `{txt}` not recognised",
+                              key="normalise")
+
     ctx.clause = "2-codec-symmetry"
     info = {}
     for role, fn in (("enc", enc), ("dec", dec)):
@@ -204,8 +228,8 @@ def check(ctx):
         texts = [ast.unparse(r.value) for r in rets]
         p = f.args.args[1].arg if len(f.args.args) > 1 else "data"
         want_int = f"bytes.fromhex(encode_to_tbcd({p}))"
-        ok = want_int in texts and p in texts and all(
-            t == p or (t.startswith("bytes.fromhex(encode_to_tbcd(") and t.endswith("))")) for t in texts)
+        inner_ok = {f"bytes.fromhex(encode_to_tbcd({x}))" for x in (p, f"int({p})", f"str({p})", f"str(int({p}))")}
+        ok = want_int in texts and p in texts and all(t == p or t in inner_ok for t in texts)
         ctx.decide(ok, "R-SIB/encode", f"{q}.encode", ci.where(f),
                    "number -> bytes.fromhex(encode_to_tbcd(.)), bytes pass through",
                    f"encode() returns {texts}: a number is not carried as bytes.fromhex(encode_to_tbcd(number))", key="encode")
